@@ -19,7 +19,7 @@
 //	{"ev":"adv","d":d}                                              (plugin level)
 //	{"ev":"conc","threads":[[op,..],..]}                            one goroutine per thread, released together
 //	{"ev":"tstorm","m":..,"url":..,"scope":"e"|"g","max":n,"st":s,"n":N,"then":"rel"|"keep"|"half"}   (plugin level)
-//	{"ev":"pstorm","k":K,"n":N}                                     (plugin level)
+//	{"ev":"pstorm","k":K,"n":N,"it":I}                              (plugin level; N goroutines, I picks each, back to back)
 //
 // op:    {"op":"take","t":txn,"m":..,"url":..,"scope":..,"max":n,"st":s} | {"op":"rel","t":txn} | {"op":"pick","k":K}
 //
@@ -91,6 +91,7 @@ type Event struct {
 	N       int    `json:"n,omitempty"`
 	K       int    `json:"k,omitempty"`
 	Then    string `json:"then,omitempty"`
+	It      int    `json:"it,omitempty"` // pstorm: picks per goroutine, back to back (default 1)
 }
 
 type Script struct {
@@ -415,11 +416,14 @@ func runPlugin(sc *Script, tr *vh.Trace, uid *atomic.Int64) {
 				case "half":
 					back = adm[:len(adm)/2]
 				}
-				for _, txn := range back { // give the slots back, one at a time
-					id := uid.Add(1)
-					a := p.rel(txn)
-					tr.Add(vh.Ev{"ev": "begin", "id": id, "op": "rel", "t": txn, "act": a})
-					tr.Add(vh.Ev{"ev": "end", "id": id})
+				if len(back) > 0 { // give the slots back, one response at a time (recorded in compact form)
+					bad := 0
+					for _, txn := range back {
+						if a := p.rel(txn); a.K != "noop" {
+							bad++
+						}
+					}
+					tr.Add(vh.Ev{"ev": "rbatch", "ts": back, "bad": bad})
 				}
 			case "pstorm":
 				var wg sync.WaitGroup
@@ -427,23 +431,34 @@ func runPlugin(sc *Script, tr *vh.Trace, uid *atomic.Int64) {
 				var mu sync.Mutex
 				cnt := make([]int, e.K)
 				bad := 0
+				iters := e.It
+				if iters < 1 {
+					iters = 1
+				}
 				for i := 0; i < e.N; i++ {
 					wg.Add(1)
 					go func() {
 						defer wg.Done()
 						barrier(&arrived, int32(e.N))
-						j := pickIndex(p.pick(e.K))
-						mu.Lock()
-						if j >= 0 && j < e.K {
-							cnt[j]++
-						} else {
-							bad++
+						mine := make([]int, e.K)
+						myBad := 0
+						for it := 0; it < iters; it++ {
+							if j := pickIndex(p.pick(e.K)); j >= 0 && j < e.K {
+								mine[j]++
+							} else {
+								myBad++
+							}
 						}
+						mu.Lock()
+						for j := range mine {
+							cnt[j] += mine[j]
+						}
+						bad += myBad
 						mu.Unlock()
 					}()
 				}
 				wg.Wait()
-				tr.Add(vh.Ev{"ev": "pbatch", "k": e.K, "n": e.N, "cnt": cnt, "bad": bad})
+				tr.Add(vh.Ev{"ev": "pbatch", "k": e.K, "n": e.N * iters, "cnt": cnt, "bad": bad})
 			default:
 				vh.Die("plugin level: unknown event %q", e.Ev)
 			}
